@@ -145,3 +145,6 @@ pub fn serializer_values_are_send_sync() {
     ss(&gen_tls_message::<W>(&msg));
     ss(&gen_tls_plaintext::<W>(&rec));
 }
+
+// every module-level `pub struct` / `pub enum` found in the sources of the tree under test (sendsync/build.rs)
+include!(concat!(env!("OUT_DIR"), "/auto_types.rs"));
